@@ -121,6 +121,8 @@ def run_harness(job):
         cmd += ["--param", "%s=%s" % (k, v)]
     if shard:
         cmd += ["--shard", shard]
+    if spec.get("_panic_ok"):
+        cmd += ["--panic-ok"]
     env = dict(ENV_BASE, PYTHONPATH=VERIF)
     t0 = time.time()
     try:
@@ -152,12 +154,18 @@ def write_model(path, model, params):
             f.write("param.%s=%d\n" % (k, v))
 
 
-def native_replay(binary, harness, files):
+def native_replay(binary, harness, files, timeout=600):
     out = {}
     for i in range(0, len(files), 200):
         chunk = files[i:i + 200]
-        p = subprocess.run([binary, harness] + chunk, stdout=subprocess.PIPE, stderr=subprocess.STDOUT, text=True,
-                           timeout=600)
+        try:
+            p = subprocess.run([binary, harness] + chunk, stdout=subprocess.PIPE, stderr=subprocess.STDOUT, text=True,
+                               timeout=timeout)
+        except subprocess.TimeoutExpired:
+            if len(chunk) == 1:
+                out[chunk[0]] = {"harness": harness, "model": chunk[0], "failed": "hang", "panic": "none", "emits": ""}
+                continue
+            raise
         for line in p.stdout.splitlines():
             if line.startswith("REPLAY "):
                 d = {}
@@ -220,15 +228,16 @@ def main():
     known = sorted(set(e["class"] for e in known_entries))
     outdir = os.path.join(WORK, "runs", "%s.%s" % (pid, tier))
     os.makedirs(outdir, exist_ok=True)
-    for f in os.listdir(outdir):
-        os.unlink(os.path.join(outdir, f))
+    import shutil
+    shutil.rmtree(outdir, ignore_errors=True)
+    os.makedirs(outdir, exist_ok=True)
     jobs = []
     for spec in prop["harnesses"]:
         if tier not in spec.get("tiers", ("quick", "thorough")):
             continue
         shards = spec.get("shards", {}).get(tier) or [""]
         for sh_ in shards:
-            s2 = dict(spec, _shard=sh_)
+            s2 = dict(spec, _shard=sh_, _panic_ok=spec["name"] in prop.get("panic_ok", []))
             jobs.append((mir_copy, s2, tier, seed, outdir, known))
     results = []
     with cf.ThreadPoolExecutor(max_workers=int(os.environ.get("VERIF_JOBS", "14"))) as ex:
@@ -256,13 +265,14 @@ def main():
         # counterexamples
         for i, f in enumerate(r.get("findings", [])):
             cls = f.get("class")
-            fname = "%s-%s-%s-%s.model" % (pid, h, f["label"].replace(":", "_").replace("/", "_"), cls or "NEW")
+            stag = hashlib.md5(r["_shard"].encode()).hexdigest()[:4] if r["_shard"] else "0"
+            fname = "%s-%s-%s-%s-%s.model" % (pid, h, f["label"].replace(":", "_").replace("/", "_"), cls or "NEW", stag)
             path = os.path.join(replay_dir, fname)
             write_model(path, f["model"], params_all)
             ok_all = True
             outs = {}
             for prof in ("dev", "release"):
-                d = native_replay(bins[prof], h, [path]).get(path, {})
+                d = native_replay(bins[prof], h, [path], timeout=20 if f["label"] == "hang" else 300).get(path, {})
                 outs[prof] = d
                 failed = d.get("failed", "").split(",")
                 if f["label"] == "panic":
